@@ -38,13 +38,13 @@ ASSUMPTIONS = [
 ]
 # clauses of the statement that no theorem covers (testing only, or nothing)
 UNPROVED = [
-    "`the emitted C compiles cleanly for every accepted program`: no theorem; 13 fixed witness programs, the layout probes and 8 (quick) / 60 (thorough) generated whole programs built with --sanitize (7 open findings are programs the analyzer accepts and a C compiler rejects or UBSan flags)",
+    "`the emitted C compiles cleanly for every accepted program`: no theorem; 13 fixed witness programs, the layout probes and 8 (quick) / 60 (thorough) generated whole programs built with --sanitize (the open findings are programs the analyzer accepts and a C compiler rejects or UBSan flags)",
     "`runs without C-level undefined behaviour` for whole programs: only per-helper/per-operator theorems (division, shifts, + - * unary-, comparisons, narrowing) and the memcmp bounds of nelua_eq_; temporaries, lifetimes, aliasing casts, zero initialisers, declaration order, use after scope: sanitized runs only",
     "`///` `%%%` and unsigned `//` `%`: undefined for a zero divisor and MIN / -1 (C03_tdiv_no_ub_refuted, C03_udiv_no_ub_refuted; 6 open findings)",
     "float -> integer narrowing outside the target range (C03_narrow_float_defined_refuted; 2 open findings); float arithmetic, float -> float narrowing, libm calls: not modelled",
     "integer narrowing h_narrow_int and the bitwise operators have no theorem (they cannot be undefined by the shape of their C)",
     "eq_accesses (the modelled memcmp calls of nelua_eq_<type>) is proved in bounds but its list is not compared with the memcmp calls in the emitted C (only the scraped sizeof argument and the sanitized eqprobe runs tie it)",
-    "layout: types outside wfb (aligned(N) with N not a power of two or > 65536, 128-bit integers as record fields are in the generator but not in ity_ok, enums, spans, strings, function types): layout stream and witness only",
+    "layout: types outside wfb (128-bit integers as record fields are in the generator but not in ity_ok, enums, spans, strings, function types): layout stream only; the alignment domain of wfb is the analyzer's (scraped aligned_pow2_max)",
     "the GNU treatment of signed << is an assumption, not derived from anything scraped",
 ]
 THEOREM_CLASSES = {
@@ -71,7 +71,7 @@ THEOREM_CLASSES = {
 }
 MANIFEST_ENTRY = {
     "text": "proof, partial: theorems cover (a) layout - for every well-formed type tree (records packed/aligned, unions, arrays incl. zero length, nested) the compiler's size, alignment and field offsets are the C compiler's, so the emitted static assertion holds; (b) UB-freedom of the emitted integer helpers and operators in the dialect of every supported build (-fwrapv from the scraped base flags of gcc and clang): floor division / modulo checked and unchecked, the three shifts with helper and constant-count fast path, + - * unary-, mixed-sign comparisons; `///` `%%%` and unsigned `//` `%` REFUTED (bare C division: zero divisor, MIN / -1), float -> integer narrowing REFUTED outside the range; (c) the memcmp calls of record equality stay inside the object.  Rest on testing only: `compiles cleanly` and `no UB` for whole programs (witness programs, layout probes, generated programs under ASan/UBSan with gcc and clang).",
-    "note": "no axioms; tie: primitive tables printed by the real compiler, scraped cbuiltins.lua/cdefs.lua facts, extracted model run against gcc and clang builds under sanitizers (helpers with checks on and off, literal shift counts, layout probes); 13 open findings replayed on every run; coq/C03/{CSem,Helpers,ProofsBase,ProofsDiv}.v are copied into coq/C01 and coq/C09; uses harness/C01/{scrape,progs}.py",
+    "note": "no axioms; tie: primitive tables printed by the real compiler, scraped cbuiltins.lua/cdefs.lua facts, extracted model run against gcc and clang builds under sanitizers (helpers with checks on and off, literal shift counts, layout probes); 12 open findings replayed on every run; coq/C03/{CSem,Helpers,ProofsBase,ProofsDiv}.v are copied into coq/C01 and coq/C09; uses harness/C01/{scrape,progs}.py",
     "technique": "Coq theorems about an executable Gallina model + generated parameters + behavioural correspondence of the extracted model under sanitizers",
 }
 
@@ -125,6 +125,7 @@ def gen(ctx):
     fastw = scrape.scrape_shift_fast_path(cb)
     fl = scrape.scrape_cflags(vlib.repo_read("lualib/nelua/cdefs.lua"))
     wrapv = {cc: "-fwrapv" in fl[cc]["cflags_base"].split() for cc in ("gcc", "clang")}
+    adom = scrape.scrape_aligned_domain(vlib.repo_read("lualib/nelua/analyzer.lua"))
     pl = lambda t: "[" + "; ".join("(%d, %d)" % t[x] for x in names) + "]"
     txt = "\n".join([
         "(* GENERATED by checks/C03.py from /repo (harness/C03/prims.nelua through the real compiler with gcc and clang; cbuiltins.lua) - do not edit *)",
@@ -153,12 +154,14 @@ def gen(ctx):
         "(* cdefs.lua compilers_flags.<cc>.cflags_base (passed in every build configuration) contains -fwrapv *)",
         "Definition gcc_base_has_fwrapv : bool := %s." % ("true" if wrapv["gcc"] else "false"),
         "Definition clang_base_has_fwrapv : bool := %s." % ("true" if wrapv["clang"] else "false"),
+        "(* analyzer visitors.Annotation: <aligned(N)> must be a power of two in 1 .. aligned_pow2_max (0 = not validated) *)",
+        "Definition aligned_pow2_max : Z := %d." % adom["max"],
         "",
     ])
     vlib.write_if_changed(os.path.join(vlib.coq_dir(ID), "Gen.v"), txt)
     return {"primitives": names, "nelua_prims": [g["nelua"][x] for x in names], "c_prims": [g["c"][x] for x in names],
             "consts": g["consts"], "eq_array_memcmp_size_is_field": is_field, "eq_array_memcmp_arg": arg, "div_guard_first": guard, "shift_fast_path_compares_left_width": fastw,
-            "cflags_base_has_fwrapv": wrapv}
+            "cflags_base_has_fwrapv": wrapv, "aligned_domain": adom}
 
 
 # ---------------------------------------------------------------------------
@@ -194,7 +197,8 @@ WITNESS_PROGRAMS = [
     ('cgen: f().arr with f returning a record by value (address of an rvalue)', 'local R = @record{arr: [3]integer, n: integer}\nlocal function f(): R\n  local r: R\n  r.arr[1] = 7\n  r.n = 2\n  return r\nend\nlocal a = f().arr\nprint(a[1], f().arr[1], f().n)\n', "7\t7\t2\n"),
     ('cgen: array field of a <packed> record read through a misaligned _cast union', 'local P <packed> = @record{b: byte, arr: [2]int64, c: byte}\nlocal p: P\np.arr[1] = 5\nlocal function get(q: *P, i: integer): int64 return q.arr[i] end\nlocal arrcopy = p.arr\nprint(get(&p, 1), arrcopy[1], p.arr[0] + p.arr[1])\n', "5\t5\t5\n", "gcc", SAN),
     ('cgen: defer block holding a loop with `break` inside a switch, emitted at two exits (duplicate C label)', "local function f(x: integer): integer\n  for i = 1, 3 do\n    defer\n      for j = 1, 2 do\n        switch j do\n        case 1 then\n          break\n        else\n          print('other', j)\n        end\n      end\n      print('deferred', i)\n    end\n    if i == 2 then return i end\n  end\n  return 0\nend\nprint(f(1))\n", "deferred\t1\ndeferred\t2\n2\n"),
-    # the analyzer accepts any integer in <aligned(N)>; a located compile error would be fine too (6th field)
+    # repaired in /repo 42ec760: <aligned(3)> is rejected by the analyzer with a located error (6th field: that, or a
+    # clean build, is the expected outcome; before, the emitted C was rejected by gcc and clang)
     ("cgen: local R <aligned(3)> = @record{a: byte}, r.a = 1 (alignment not a power of two)",
      "local R <aligned(3)> = @record{a: byte}\nlocal r: R\nr.a = 1\nprint(r.a)\n", "1\n", "gcc", (), "reject_ok"),
     (W_ZERO_LIT2, "local In = @record{x: integer}\nlocal A = @record{z: [0]In, f: float32}\nlocal B = @record{a: A, y: integer}\n"
